@@ -8,13 +8,13 @@ PROP = dict(
     ],
     assumptions=[
         "core expression language: numbers, strings, booleans, identifiers, let with identifier/array/tuple/literal patterns, "
-        "\\p functions, calls, ->, =>, >>, where, orderby (default binder and explicit), + - * ^, comparisons, unary minus, attribute access e.name, cond, &&, ||, "
+        "\\p functions, calls, ->, =>, >>, where, orderby (default binder and explicit), + - * ^, comparisons, prefix - + ! ^ (Negate incl. @neg wrappers), attribute access e.name, cond, &&, ||, "
         "set/array/tuple/dict constructors, relation literals, byte-array literals, parentheses",
         "closures are first-class in let/call/arrow positions but not inside data; patterns are linear; orderby keys are distinct numbers "
         "(anything else is outside the model and checked only for 'no panic')",
         "programs of depth <= 4; closure-call depth <= 60",
     ],
-    level_text="Proof (layer 1, compile/evaluate): 36 Lean theorems about an executable transliteration of syntax/compile.go's decisions "
+    level_text="Proof (layer 1, compile/evaluate): 37 Lean theorems about an executable transliteration of syntax/compile.go's decisions "
                "(compileLet/Arrow/Function, NewCallExpr, ExprAsFunction, ExprExpr for parentheses, literal folding, cond) and of the Eval "
                "methods over values + closures. A simulation theorem (`sim`) over the congruence closure of the documented rewrites gives "
                "`rewrite_inert`: programs related by let = arrow = call, parentheses (also around a function literal operand), "
@@ -48,5 +48,6 @@ PROP = dict(
            "rel.addValues", "rel.newArithExpr", "rel.NewRelationExpr", "rel.NewAndExpr", "rel.NewOrExpr", "rel.NewDotExpr",
            "rel.DotExpr.Eval", "rel.TupleMapExpr.Eval", "rel.ReduceExpr.Eval", "rel.NewSumExpr", "rel.NewMaxExpr", "rel.NewMinExpr",
            "syntax.ParseContext.compileRelation", "syntax.ParseContext.compileGet", "syntax.ParseContext.compileCallGet",
-           "syntax.ParseContext.compileBytes"],
+           "syntax.ParseContext.compileBytes", "rel.NewNegExpr", "rel.NewPosExpr", "rel.NewNotExpr", "rel.NewPowerSetExpr",
+           "rel.Number.Negate", "rel.GenericTuple.Negate", "rel.GenericSet.Negate", "rel.EmptySet.Negate", "rel.String.Negate", "rel.PowerSet"],
 )
